@@ -16,10 +16,10 @@ import (
 // stake snapshots recorded at report time. Output compared: the change of every selector's credit.
 type OracleC09 struct {
 	counters
-	prevTips map[string]*big.Rat
-	prevQ    map[string]oracletypes.QueryMeta
-	prevTBR  *big.Int
-	have     bool
+	prevTips  map[string]*big.Rat
+	prevQ     map[string]oracletypes.QueryMeta
+	prevTBR   *big.Int
+	have      bool
 	everCycle map[string]bool // query ids that were in the cycle list at some block end (governance may replace the list while a round is open)
 }
 
